@@ -109,6 +109,7 @@ var quickShapes = map[string]bool{
 	"merge/plain": true, "merge/modes": true, "merge/lfs": true,
 	"fork/tracked": true,
 	"pushed/lfs": true, "exotic-msg/lfs": true,
+	"merge-asym/modes": true, "merge-asym@same/plain": true, "merge-asym@skew/lfs": true,
 }
 
 func makeShapes(thorough bool) []shape {
@@ -196,7 +197,13 @@ func (ev *env) state(sh *shape, b *base) *baseState {
 	st.once.Do(func() {
 		defer func() {
 			if e := recover(); e != nil {
-				st.err = fmt.Sprint(e)
+				if tf, ok := e.(toolFailure); ok && tf.timedOut {
+					st.err = "INCONCLUSIVE: " + tf.msg
+				} else if tf, ok := e.(toolFailure); ok {
+					st.err = tf.msg
+				} else {
+					st.err = fmt.Sprint(e)
+				}
 			}
 		}()
 		st.snap = takeSnap(ev.w, filepath.Join(b.dir, b.repo))
@@ -685,18 +692,26 @@ func (ev *env) doCase(sh *shape, op string, cd caseDef, id string, sample map[st
 				panic(e)
 			}
 			if tf.timedOut {
-				out.Inconcl = "git timed out"
+				out.Inconcl = tf.msg
 			} else {
 				out.ToolErr = "case " + id + ": " + tf.msg
 			}
 		}
 	}()
 	b := getBase(ev.w, ev.scratch, sh)
+	if strings.HasPrefix(b.err, "INCONCLUSIVE:") {
+		out.Inconcl = "base repository could not be built (subprocess start failure/timeout)"
+		return
+	}
 	if b.err != "" {
 		out.ToolErr = "base " + sh.name + ": " + b.err
 		return
 	}
 	bs := ev.state(sh, b)
+	if strings.HasPrefix(bs.err, "INCONCLUSIVE:") {
+		out.Inconcl = "snapshot of the base repository: subprocess start failure/timeout"
+		return
+	}
 	if bs.err != "" {
 		out.ToolErr = "base snapshot " + sh.name + ": " + bs.err
 		return
@@ -710,7 +725,14 @@ func (ev *env) doCase(sh *shape, op string, cd caseDef, id string, sample map[st
 		}
 		os.RemoveAll(caseDir)
 	}()
-	gitx.CopyTree(b.dir, caseDir)
+	os.MkdirAll(filepath.Dir(caseDir), 0755)
+	if r := runR(ev.w, ev.scratch, nil, nil, "cp", "-a", b.dir, caseDir); !r.OK() {
+		if r.TimedOut || r.Code == -2 {
+			out.Inconcl = "cp -a of the base repository timed out or could not be started"
+			return
+		}
+		toolFail("cp -a %s %s: %s", b.dir, caseDir, r)
+	}
 	repo := filepath.Join(caseDir, b.repo)
 
 	trackedOld := func(commit string) map[string]bool {
@@ -754,8 +776,8 @@ func (ev *env) doCase(sh *shape, op string, cd caseDef, id string, sample map[st
 		args := append([]string{"migrate", "import", "--yes", "--no-rewrite"}, files...)
 		r := ev.w.LFS(repo, args...)
 		sample["argv"] = args
-		if r.TimedOut {
-			out.Inconcl = "git-lfs timed out"
+		if r.TimedOut || r.Code == -2 {
+			out.Inconcl = "git-lfs timed out or could not be started"
 			return
 		}
 		if r.Code != 0 {
@@ -787,8 +809,8 @@ func (ev *env) doCase(sh *shape, op string, cd caseDef, id string, sample map[st
 		r := ev.w.LFS(repo, args...)
 		sample["argv_"+stepOp] = args
 		so := &stepOut{changed: map[string][]string{}}
-		if r.TimedOut {
-			panic(toolFailure{msg: "git-lfs timed out", timedOut: true})
+		if r.TimedOut || r.Code == -2 {
+			panic(toolFailure{msg: "git-lfs timed out or could not be started", timedOut: true})
 		}
 		if r.Code != 0 {
 			j.bad(fmt.Sprintf("C12:migrate-failed:%s:%s:%s", stepOp, cd.ps.kind, cd.rs.kind), fmt.Sprintf("git lfs %s exited %d: %s", strings.Join(args, " "), r.Code, tail(r.Err)), nil)
@@ -951,14 +973,15 @@ func TestVerifC12(t *testing.T) {
 		psNames = append(psNames, p.name+" ["+strings.Join(p.args(), " ")+"]")
 	}
 	c.Bounds["shapes"] = shapeNames
-	c.Bounds["max_commits_per_history"] = 4
+	c.Bounds["max_commits_per_history"] = 5
+	c.Bounds["time_stamp_assignments"] = []string{"strictly increasing along creation order (all topologies)", "same: every commit in the same second (merge, merge-noside, merge-asym)", "skew: side-line commits dated before the root commit, i.e. children older than ancestors (merge, merge-noside, merge-asym)"}
 	c.Bounds["operations"] = ops
 	c.Bounds["path_selections"] = psNames
 	c.Bounds["planned_cases"] = planned
 	c.Bounds["planned_cases_per_operation"] = perOp
 	c.Rule = "one case = (shape = topology x file profile, operation in {import, export, import-then-export}, path selection, ref selection of the topology); the explored set is the COMPLETE product " +
 		"shapes x operations x path selections x ref selections (export and import-then-export take the selections that have an --include; --no-rewrite is crossed with the default ref selection only, as the manual says the ref options are ignored). " +
-		"Topologies (<=4 commits): single, linear 2/3/4, fork, merge (with and without the side branch ref), two roots merged, octopus of three roots, tag on a commit no branch reaches, revert/reapply, first commit pushed to a real remote, bare repository, and one history with commit messages as other tools write them (no trailing LF, CRLF, encoding header, empty); refs: branches, lightweight + annotated tags, tag of a tag, refs/pull/*, refs/remotes/*. " +
+		"Topologies (<=5 commits): single, linear 2/3/4, fork, merge (with and without the side branch ref), asymmetric merge (sides of length 1 and 2), the three merge graphs additionally with all commits in the same second and with the side line dated before the root (clock skew), two roots merged, octopus of three roots, tag on a commit no branch reaches, revert/reapply, first commit pushed to a real remote, bare repository, and one history with commit messages as other tools write them (no trailing LF, CRLF, encoding header, empty); refs: branches, lightweight + annotated tags, tag of a tag, refs/pull/*, refs/remotes/*. " +
 		"File profiles (four trees each, differing by add/modify/delete/rename/mode flip/type change/attribute change): plain (sizes 200..5000 incl. 1000/1023/1024, two paths with identical content, blanks and non-ASCII in a path, identical subtrees under two parents), modes (executable, symlinks, gitlink, empty file, file<->directory, symlink<->file with the same blob), lfs (root and nested .gitattributes that change between commits, files already stored as pointers, raw files at tracked paths, pointer at an untracked path, empty tracked file, one object under two paths), tracked (everything already in LFS), mix (all of them in one tree). " +
 		"distinct_nontrivial = distinct cases in which at least one commit was actually rewritten (for import-then-export: in both steps)"
 	c.Assumptions = []string{
@@ -1001,7 +1024,7 @@ func TestVerifC12(t *testing.T) {
 		st.Violations = append(st.Violations, ev.found[fp])
 	}
 	ev.mu.Unlock()
-	extra := map[string]interface{}{"base_repositories_built": nb, "planned_cases": planned, "violating_oracle_evaluations": ev.nviol, "distinct_violation_fingerprints": fps}
+	extra := map[string]interface{}{"subprocess_start_retries": atomic.LoadInt64(&execRetries), "base_repositories_built": nb, "planned_cases": planned, "violating_oracle_evaluations": ev.nviol, "distinct_violation_fingerprints": fps}
 	if fps == nil {
 		extra["distinct_violation_fingerprints"] = []string{}
 	}
